@@ -197,3 +197,25 @@ pub fn step_bad(f: &Filt, st: Option<f32>, x: f32) -> f32 {
     };
     f.update(p, x)
 }
+
+/// inliner control: `radius_via_helper` must look like `radius_inline` once `radius_helper_sq` is treated as new
+pub struct Bx {
+    pub aspect: f32,
+    pub height: f32,
+}
+
+pub fn radius_inline(b: &Bx) -> f32 {
+    let hw = b.aspect * b.height / 2.0;
+    let hh = b.height / 2.0;
+    (hw * hw + hh * hh).sqrt()
+}
+
+fn radius_helper_sq(b: &Bx) -> f32 {
+    let hw = b.aspect * b.height / 2.0;
+    let hh = b.height / 2.0;
+    hw * hw + hh * hh
+}
+
+pub fn radius_via_helper(b: &Bx) -> f32 {
+    radius_helper_sq(b).sqrt()
+}
